@@ -102,7 +102,8 @@ def run(ctx):
             os.makedirs(d)
             # any well-formed spelling of the parts is inside the domain: comments, processing instructions, CDATA, whitespace
             sp = B.Spelling(rng=rng, comments=rng.random() < 0.4, pis=rng.random() < 0.3, cdata=rng.random() < 0.3,
-                            whitespace=rng.random() < 0.4, strict=rng.random() < 0.2) if valid else None
+                            whitespace=rng.random() < 0.4, strict=rng.random() < 0.2,
+                            **({"encoding": "utf-16", "declaration": "plain"} if rng.random() < 0.15 else {})) if valid else None
             data, parts = B.build(pkg, sp)
             path = os.path.join(d, "in.docx") if named else None
             if path:
